@@ -197,6 +197,127 @@ fn ke3_case(ctx: &[u8], idu_explicit: bool) {
     core::mem::forget(ke1s);
 }
 
+/// generate_ke2 monomorphised with single-slice iterators (see ke3_case_flat)
+fn ke2_case_flat(ctx: &[u8], idu_explicit: bool) {
+    let blinded = any_u8();
+    let ke1 = any_bytes::<34>();
+    let beta = any_u8();
+    let masking_nonce = any_bytes::<32>();
+    let masked = any_bytes::<42>();
+    let cpk = any_key();
+    let ssk = any_key();
+    let idb = any_bytes::<2>();
+    let mut tape = Tape::symbolic();
+    let Ok(ke1m) = Ke1Message::<G241>::deserialize(&ke1) else { return };
+    let cpkb = [PK_TAG, cpk];
+    let spkb = spec::ke_public(ssk);
+    let mut l2 = [0u8; 75];
+    l2[0] = beta;
+    put(&mut l2[1..33], &masking_nonce);
+    put(&mut l2[33..75], &masked);
+    let mut ke1full = [0u8; 35];
+    ke1full[0] = blinded;
+    put(&mut ke1full[1..35], &ke1);
+    let id_u: &[u8] = if idu_explicit { &idb[..1] } else { &cpkb };
+    let mut idu_enc = [0u8; 4];
+    idu_enc[1] = id_u.len() as u8;
+    put(&mut idu_enc[2..], id_u);
+    let idu_enc_len = 2 + id_u.len();
+    let ids_enc = [0u8, 2, spkb[0], spkb[1]];
+    let r = <TripleDh as KeyExchange<MHash, G241>>::generate_ke2::<MOprf, _, PrivateKey<G241>>(
+        &mut tape,
+        core::iter::once(&ke1full[..]),
+        core::iter::once(&l2[..]),
+        ke1m,
+        pk_of(cpk),
+        sk_of(ssk),
+        core::iter::once(&idu_enc[..idu_enc_len]),
+        core::iter::once(&ids_enc[..]),
+        ctx,
+    );
+    check!(r.is_ok(), "server key-exchange step succeeds");
+    let Ok(res) = r else { return };
+    let st = res.0.serialize(); // km3(8) | Hash(preamble||server_mac)(8) | session_key(8)
+    let msg = res.1.serialize(); // server_nonce(32) | server_e_pk(2) | server_mac(8)
+    check!(tape.pos == 33 && !tape.overrun, "exactly one key seed and one nonce are drawn");
+    let seed_first = eq_bytes(&msg[0..32], &tape.buf[1..33]);
+    let nonce_first = eq_bytes(&msg[0..32], &tape.buf[0..32]);
+    check!(seed_first || nonce_first, "server nonce is 32 fresh bytes from the caller's RNG, disjoint from the key seed");
+    let seed_byte = if seed_first { tape.buf[0] } else { tape.buf[32] };
+    let esk = spec::derive_dh_keypair(&[seed_byte]);
+    check!(eq_bytes(&msg[32..34], &spec::ke_public(esk)), "server ephemeral key = DeriveDiffieHellmanKeyPair(fresh seed)");
+    let pre = spec::preamble(ctx, id_u, &ke1full, &spkb, &l2, &msg[0..32], &msg[32..34]);
+    let w = spec::server_ke(pre, esk, ssk, &ke1[32..34], &cpkb);
+    check!(eq_bytes(&msg[34..42], &w.server_mac), "server MAC == MAC(Km2, Hash(preamble)) over context, identities, request, response, nonce, key share");
+    check!(eq_bytes(&st[0..8], &w.km3), "pending state holds Km3");
+    check!(eq_bytes(&st[8..16], &w.transcript2), "pending state holds Hash(preamble || server_mac)");
+    check!(eq_bytes(&st[16..24], &w.session_key), "pending state holds the session key");
+    cover!(true, "reached");
+    core::mem::forget(res);
+}
+
+/// generate_ke3 monomorphised with single-slice iterators (`core::iter::once`): the function is generic in its iterator
+/// arguments and only their concatenation matters; CBMC follows `Once` precisely, whereas the crate-internal
+/// `Chain<array::IntoIter<..>>` arguments make every later buffer position symbolic (3 M steps, > 50 GB).
+fn ke3_case_flat(ctx: &[u8], idu_explicit: bool) {
+    let blinded = any_u8();
+    let ke1 = any_bytes::<34>();
+    let beta = any_u8();
+    let masking_nonce = any_bytes::<32>();
+    let masked = any_bytes::<42>();
+    let ke2 = any_bytes::<42>();
+    let ke1st = any_bytes::<33>();
+    let spk = any_key();
+    let csk = any_key();
+    let idb = any_bytes::<2>();
+    let Ok(ke2m) = Ke2Message::<MHash, G241>::deserialize(&ke2) else { return };
+    let Ok(ke1s) = Ke1State::<G241>::deserialize(&ke1st) else { return };
+    let cpkb = spec::ke_public(csk);
+    let spkb = [PK_TAG, spk];
+    let mut l2 = [0u8; 75];
+    l2[0] = beta;
+    put(&mut l2[1..33], &masking_nonce);
+    put(&mut l2[33..75], &masked);
+    let mut ke1full = [0u8; 35];
+    ke1full[0] = blinded;
+    put(&mut ke1full[1..35], &ke1);
+    let id_u: &[u8] = if idu_explicit { &idb[..1] } else { &cpkb };
+    let mut idu_enc = [0u8; 4];
+    idu_enc[1] = id_u.len() as u8;
+    put(&mut idu_enc[2..], id_u);
+    let idu_enc_len = 2 + id_u.len();
+    let ids_enc = [0u8, 2, spkb[0], spkb[1]];
+    let r = <TripleDh as KeyExchange<MHash, G241>>::generate_ke3(
+        core::iter::once(&l2[..]),
+        ke2m,
+        &ke1s,
+        core::iter::once(&ke1full[..]),
+        pk_of(spk),
+        sk_of(csk),
+        core::iter::once(&idu_enc[..idu_enc_len]),
+        core::iter::once(&ids_enc[..]),
+        ctx,
+    );
+    let pre = spec::preamble(ctx, id_u, &ke1full, &spkb, &l2, &ke2[0..32], &ke2[32..34]);
+    let w = spec::client_ke(pre, ke1st[0], csk, &ke2[32..34], &spkb, &ke2[34..42]);
+    let mac_ok = eq_bytes(&w.expected_server_mac, &ke2[34..42]);
+    match r {
+        Ok(res) => {
+            check!(mac_ok, "client accepts only a server MAC over its own view of the whole transcript");
+            check!(eq_bytes(&res.0, &w.session_key), "client session key per RFC 9807 6.4.3");
+            check!(eq_bytes(&res.1.serialize(), &w.client_mac), "client MAC == MAC(Km3, Hash(preamble || server_mac))");
+            cover!(true, "accept");
+            core::mem::forget(res);
+        }
+        Err(e) => {
+            check!(!mac_ok, "the genuine server MAC is accepted");
+            check!(matches!(e, ProtocolError::InvalidLoginError), "a wrong server MAC is reported as InvalidLoginError");
+            cover!(true, "reject");
+        }
+    }
+    core::mem::forget(ke1s);
+}
+
 harnesses! {
     fn s11_derive_3dh_keys [unwind = 36] { derive_case_direct(); }
 
@@ -261,4 +382,12 @@ harnesses! {
     fn s10w_generate_ke3_ctx0_default_ids [unwind = 46] { ke3_case(&[], false); }
     #[cfg_attr(kani, kani::stub(crate::key_exchange::tripledh::derive_3dh_keys, crate::key_exchange::tripledh::verif_kani_tripledh::stub_derive_3dh_keys))]
     fn s10w_generate_ke3_ctx2_explicit_idu [unwind = 46] { let c = any_bytes::<2>(); ke3_case(&c, true); }
+    #[cfg_attr(kani, kani::stub(crate::key_exchange::tripledh::derive_3dh_keys, crate::key_exchange::tripledh::verif_kani_tripledh::stub_derive_3dh_keys))]
+    fn s10p_generate_ke3_ctx0_default_ids [unwind = 80] { ke3_case_flat(&[], false); }
+    #[cfg_attr(kani, kani::stub(crate::key_exchange::tripledh::derive_3dh_keys, crate::key_exchange::tripledh::verif_kani_tripledh::stub_derive_3dh_keys))]
+    fn s10p_generate_ke3_ctx2_explicit_idu [unwind = 80] { let c = any_bytes::<2>(); ke3_case_flat(&c, true); }
+    #[cfg_attr(kani, kani::stub(crate::key_exchange::tripledh::derive_3dh_keys, crate::key_exchange::tripledh::verif_kani_tripledh::stub_derive_3dh_keys))]
+    fn s10p_generate_ke2_ctx0_default_ids [unwind = 80] { ke2_case_flat(&[], false); }
+    #[cfg_attr(kani, kani::stub(crate::key_exchange::tripledh::derive_3dh_keys, crate::key_exchange::tripledh::verif_kani_tripledh::stub_derive_3dh_keys))]
+    fn s10p_generate_ke2_ctx2_explicit_idu [unwind = 80] { let c = any_bytes::<2>(); ke2_case_flat(&c, true); }
 }
